@@ -17,15 +17,28 @@ func (in *Interp) foreign(fn *types.Func, recv Value, x *ast.CallExpr) []Value {
 	case "errors.New", "fmt.Errorf", "github.com/pkg/errors.New", "github.com/pkg/errors.Errorf":
 		tag := ""
 		if name == "fmt.Errorf" && len(x.Args) > 0 {
-			// %w builds a wrapper (errors.Is / errors.Unwrap see through it): not modelled
+			// %w builds a wrapper: a new non-nil error object (whatever it wraps) that errors.Is / errors.Unwrap see
+			// through; that chain is not modelled — the value carries the cause marker "%w?", and every operation that
+			// would look through it (errors.Is, errors.Cause, errors.Unwrap) leaves the subset when it meets the marker
+			wraps := false
 			if fr := in.fr(); fr != nil {
 				if tv, ok := fr.pkg.TypesInfo.Types[x.Args[0]]; ok && tv.Value != nil {
-					if strings.Contains(tv.Value.ExactString(), "%w") {
-						in.fail(x, "fmt.Errorf with a %%w verb")
-					}
-				} else if sv, ok := in.expr(x.Args[0]).(*StrVal); !ok || !sv.Known || strings.Contains(sv.S, "%w") {
-					in.fail(x, "fmt.Errorf with a format that is not a known string without %%w")
+					wraps = strings.Contains(tv.Value.ExactString(), "%w")
+				} else if sv, ok := in.expr(x.Args[0]).(*StrVal); !ok || !sv.Known {
+					in.fail(x, "fmt.Errorf with a format that is not a known string")
+				} else {
+					wraps = strings.Contains(sv.S, "%w")
 				}
+			}
+			if wraps {
+				for _, a := range x.Args[1:] {
+					in.expr(a) // evaluate the operands for their effects
+				}
+				pos := ""
+				if fr := in.fr(); fr != nil {
+					pos = fr.pkg.Fset.Position(x.Pos()).String()
+				}
+				return []Value{&ErrVal{NonNil: True, Tag: "fmtwrap@" + pos, Cause: "%w?"}}
 			}
 		}
 		if fr := in.fr(); fr != nil && strings.HasPrefix(fr.fn, "init:") {
@@ -50,6 +63,9 @@ func (in *Interp) foreign(fn *types.Func, recv Value, x *ast.CallExpr) []Value {
 		// links that can be a sentinel: the error itself and what pkg/errors wrapped (its Cause); both nil: true.
 		ev, ok1 := asErr(in.expr(x.Args[0])).(*ErrVal)
 		tv, ok2 := asErr(in.expr(x.Args[1])).(*ErrVal)
+		if ok1 {
+			in.noFmtWrap(x, ev, "errors.Is")
+		}
 		if ok1 && ok2 && tv.Tag != "" && tv.Tag != "?" {
 			is := False
 			if c, ok := errTagConds(ev)[tv.Tag]; ok {
@@ -66,6 +82,7 @@ func (in *Interp) foreign(fn *types.Func, recv Value, x *ast.CallExpr) []Value {
 		return nil
 	case "github.com/pkg/errors.Cause":
 		if ev, ok := asErr(in.expr(x.Args[0])).(*ErrVal); ok {
+			in.noFmtWrap(x, ev, "errors.Cause")
 			tag := ev.Cause
 			if tag == "" {
 				tag = ev.Tag
@@ -1108,4 +1125,14 @@ func staleValue(v Value) Value {
 		return n
 	}
 	return Stale{}
+}
+
+// noFmtWrap: the error may have been built by fmt.Errorf with %w on a live path: its unwrap chain is not modelled.
+func (in *Interp) noFmtWrap(x ast.Node, ev *ErrVal, what string) {
+	if ev.Cause == "%w?" {
+		in.fail(x, "%s of an error built by fmt.Errorf with %%w", what)
+	}
+	if c, ok := errCauseConds(ev)["%w?"]; ok && in.D.M.And(in.live, c) != False {
+		in.fail(x, "%s of an error that may have been built by fmt.Errorf with %%w", what)
+	}
 }
